@@ -21,8 +21,9 @@ Definition bget (sx : list Z) (t : tens) (idx : list Z) : CQ :=
   tget cq0 (fst t) (snd t) (bidx (fst t) (skipn k idx)).
 
 (* ---- reduction ------------------------------------------------------------------------------------- *)
+(* dim=None and an empty dim both reduce over all dimensions (torch.sum / torch.mean with dim=()) *)
 Definition norm_dims (nd : Z) (dim : option (list Z)) : list Z :=
-  match dim with None => zrange nd | Some ds => map (fun d => (d mod nd)%Z) ds end.
+  match dim with None | Some [] => zrange nd | Some ds => map (fun d => (d mod nd)%Z) ds end.
 Definition zmem (i : Z) (l : list Z) : bool := existsb (Z.eqb i) l.
 Fixpoint mapi_from {A B} (k : Z) (f : Z -> A -> B) (l : list A) : list B :=
   match l with [] => [] | a :: r => f k a :: mapi_from (k + 1)%Z f r end.
@@ -43,10 +44,16 @@ Definition reduce_sum (sx dims : list Z) (vals : list Q) : list Q :=
   map (fun oflat => qsum (map (znth 0 vals) (red_indices sx dims oflat))) (zrange (numel (kshape sx dims))).
 (* number of reduced elements (torch.mean) *)
 Definition nred (sx dims : list Z) : Z := numel (rshape sx dims).
-(* ElementaryFunctional._divide_by_n: math.prod(shape[i] for i in self.dim), python indexing *)
-Definition nprox (sx : list Z) (dim : option (list Z)) : Z :=
+(* ElementaryFunctional._divide_by_n: math.prod(shape[i] for i in self.dim), python indexing; all elements when dim is None
+   or (since the repair de813cf) empty.  nprox_legacy is the pre-repair reading, kept for the refutation. *)
+Definition nprox_legacy (sx : list Z) (dim : option (list Z)) : Z :=
   match dim with
   | None => numel sx
+  | Some ds => fold_right Z.mul 1%Z (map (fun d => znth 1%Z sx (d mod Z.of_nat (length sx))%Z) ds)
+  end.
+Definition nprox (sx : list Z) (dim : option (list Z)) : Z :=
+  match dim with
+  | None | Some [] => numel sx
   | Some ds => fold_right Z.mul 1%Z (map (fun d => znth 1%Z sx (d mod Z.of_nat (length sx))%Z) ds)
   end.
 
